@@ -78,7 +78,7 @@ def generate(rng, tier):
 def explore(case, base, rng, tier, one):
     victims = [a["name"] for a in case["scenario"]["actors"] if a["name"] != "zclose"]
     sweep(case, base, rng, one, victims, ("cancel", "interrupt", "close"),
-          BUDGET[tier]["per_group"])
+          BUDGET[tier]["per_group"], pairs=BUDGET[tier]["per_group"])
 
 
 SIGNALS = {"cancel": "CancelTask", "interrupt": "CancelScope", "close": "GeneratorExit"}
